@@ -438,7 +438,9 @@ class CaseEval:
             elif k == "deprecate" or k == "run":
                 last_complete_fix = None
             elif k == "fix":
-                complete = self.eval_fix(oi, r, recs[oi - 1] if oi else None)
+                self.eval_fix(oi, r, recs[oi - 1] if oi else None)
+                # the resubmission monitor follows every complete repair, whatever the other monitors said about it
+                complete = r["interrupted"] is None and r["cmd_error"] is None
                 last_complete_fix = oi if (complete and op["fix"]) else None
             elif k == "resubmit":
                 if last_complete_fix is not None:
@@ -616,6 +618,9 @@ class CaseEval:
             i = j["job"]
             if i not in spec_dirs:
                 continue  # never run, or its directory was deleted / made unloadable by the history
+            if j["state"] in ("SKIPPED-DANGLING-LOCATION", "DUPLICATE-IN-EXPERIMENT"):
+                ctx.count("b_resubmit_not_submitted_by_harness", j["state"])  # the harness's own choice, never a verdict
+                continue
             if j["launched"] or j["state"] != "DONE":
                 tags = self.spec_class(i)
                 cls = ":" + "+".join(tags) if tags else ""
@@ -672,8 +677,11 @@ def correspond_b(ctx):
     rng = ctx.rng
     n = ctx.scale(260, 5000)
     cases = [gen_ws_case(rng, f"{ctx.seed}_{i}") for i in range(n)]
+    t0 = time.time()
     res = run_ws_cases(ctx, cases, shards=16)
+    t1 = time.time()
     evaluate_ws(ctx, cases, res)
+    ctx.notes.append(f"(b) {n} workspace histories: real runs {t1 - t0:.1f}s, monitors + model {time.time() - t1:.1f}s")
 
 
 def correspond(ctx):
